@@ -156,3 +156,9 @@ let () =
           else st := fst (sess_step_cur w sw mdr_exact (c20_sevent e) !st)) (split_on '/' evs);
       if !outs = [] then "-" else String.concat "," (List.rev !outs)
     | _ -> "?args")
+
+(* ---- the order of the callbacks of a transfer (cb_lang_ok) ---- *)
+let () =
+  register "pcborder" (function [ops] ->
+      str_of_bool (cb_lang_ok (List.map c20_op (split_on '/' ops)))
+    | _ -> "?args")
